@@ -155,7 +155,7 @@ func NewExplorer(s *Portfolio, harness string, lim Limits) *Explorer {
 		lim.MaxConcretize = 64
 	}
 	if lim.MaxViolations == 0 {
-		lim.MaxViolations = 5
+		lim.MaxViolations = 24
 	}
 	return &Explorer{S: s, Harness: harness, Lim: lim,
 		Witnesses: map[string]*Witness{}, CheckSites: map[string]int{},
@@ -525,6 +525,15 @@ func (e *Explorer) violation(msg string, m *Model) {
 		} else if e.sat() == Sat {
 			m = e.lastModel
 		}
+	}
+	same := 0
+	for _, old := range e.Violations {
+		if old.Msg == msg {
+			same++
+		}
+	}
+	if same >= 2 {
+		return // two counterexamples per failing check are enough
 	}
 	v := Violation{Harness: e.Harness, Msg: msg, Model: e.exportModel(m), Events: append([]string{}, e.events...)}
 	for _, d := range e.trace {
